@@ -18,7 +18,7 @@ def glueExists (d : DS) (keys : List (Nat × Nat)) : String × String :=
     let idxs := allIdx d.cfg.m d.cfg.k keys
     (boolsAns r, " " ++ call (existsName d) "@" (natsC (d.cfg.k :: idxs)) (boolsReply (existsScript d.cfg.k idxs d.st.bits)))
 
-def step (d : DS) (ws : List String) : DS × String :=
+def stepBase (d : DS) (ws : List String) : DS × String :=
   match ws with
   | ["reset", m, k, ro, _, _] =>
     match m.toNat?, k.toNat? with
@@ -89,5 +89,18 @@ def step (d : DS) (ws : List String) : DS × String :=
   | ["greset"] => ({ d with st := resetScript d.st, added := [] }, "ok " ++ call "bfreset" "@,@:c" "" ":1")
   | ["gdelete"] => ({ d with st := deleteScript d.st, added := [] }, "ok " ++ call "bfdelete" "@,@:c" "" ":1")
   | _ => (d, "bad-op")
+
+/-- `overlap <opA…> / <opB…>`: opA was parked in the client before its arguments were read while opB
+ran to completion, so the server executed opB first; the model's answer for each is the ordinary one
+(the arguments of a call depend on its own items only, `Rv.C35.argv_depends_only_on_item`). -/
+def step (d : DS) (ws : List String) : DS × String :=
+  match ws with
+  | "overlap" :: rest =>
+    let a := rest.takeWhile (· != "/")
+    let b := (rest.dropWhile (· != "/")).drop 1
+    let r1 := stepBase d b
+    let r2 := stepBase r1.1 a
+    (r2.1, r2.2 ++ " | " ++ r1.2)
+  | _ => stepBase d ws
 
 def main : IO Unit := Hex.lineLoop ({} : DS) step
